@@ -113,7 +113,7 @@ Section Top.
         intros Z h El. rewrite lookup_cons in El. destruct (N.eqb_spec (px n pos 0) Z) as [<-|]; [|discriminate].
         exists 0. split; [lia|reflexivity].
       + unfold calc_path_nodes. cbn [length Nat.eqb negb init_result]. rewrite Hnz. cbn [lookup find].
-        cbn [filter]. rewrite Hnz. cbn [negb sort_idx fold_right Proof.sort_ins]. rewrite <- px0.
+        cbn [filter]. rewrite Hnz. cbn [negb]. change (nodup N.eq_dec [leaf_idx n pos]) with [leaf_idx n pos]. cbn [sort_idx fold_right Proof.sort_ins]. rewrite <- px0.
         rewrite Hrun. unfold root_of. rewrite Hroot. reflexivity.
   Qed.
 
